@@ -240,7 +240,7 @@ def gen_xml_tree(rng, allow_internal_entities=True):
             elif r < 0.75:
                 n, v = rng.choice(HTML_ENT)
                 out.append(['ent', n, v])
-            elif r < 0.9 or in_attr or not ents:
+            elif r < 0.9 or not ents:
                 c = rng.choice(['A', '<', '&', 'é', '\U0001F600', '\t', '\n', ' ', '\r', ' '])
                 out.append(['num', rng.choice('dx'), c])
             else:
